@@ -8,6 +8,8 @@ NOTE = ("Trusted: z3 5.1 / cvc5 1.0.3 verdicts; the pyvc executor's encoding of 
         "bs4/lxml/cssutils; floats under the standard error model (binary64, round-to-nearest, no overflow); "
         "the bounded parts are run-time contract evaluation, never counted as proof. See evidence/<id>.json.")
 CLAIMED = {
+ "C07": ("contract-based deductive verification of the hand-written span markup (loop invariant, abstract markup counter) + bounded run-time contracts with a strict XML parser and reference-resolution checks",
+         "P (every node sequence): DFXP and legacy DFXP text has balanced <span> markup and leaves no span open after a flat balanced caption; B: sets from all readers and API-built sets with hostile characters x three writers x options x force: strict XML, tt namespace, one div per language, one p per caption/run, unique ids, resolving references, every region referenced (two known findings)", "3 C07"),
  "C03": ("bounded run-time contracts with independent conformant parsers (the text path of the writers goes through bs4 / multi-character replace chains, outside the deductive subset); span-markup balance of the DFXP writer by loop invariant",
          "B: adversarial / metacharacter / Unicode lines x line-structure variants x seven writers parsed by reference parsers (strict XML, HTML, WebVTT, SRT, MicroDVD grammars); escape contracts exhaustive on short strings. P: <span> markup balance (see C07_spans)", "3 C03"),
  "C16": ("contract-based deductive verification with a loop invariant (correct_last_timing over a field-array heap) + bounded run-time conservation contracts on generated roll-up / paint-on programs",
